@@ -469,6 +469,7 @@ func propC03(r *Run) {
 	L, _, nRandom := scope(r)
 	r.exhaustive = true
 	c03WrapWitness(r)
+	c03Topology(r)
 	for _, l := range smallLocs(L, true) {
 		for i := 0; i <= L; i++ {
 			for k := 1; i+k <= L; k++ {
